@@ -223,7 +223,7 @@ CHECKS = {
               "UnarchiveErr()!=nil, nothing derived from that name is created, the os root's sentinel sibling is untouched. non-trivial = a child before its explicit parent, a non-clean spelling, or a size >= 150 KiB-1"),
         assumptions=["//go:debug tarinsecurepath=1 so that escaping names reach hackpadfs", "gate quiescence is detected by a short settle (affects which schedule is explored, never the verdict)", "entry names are distinct after normalisation"],
         legs=[
-            dict(name="tree", run="^TestTree$", quick=150, thorough=1200, shards=8, timeout_quick=400),
+            dict(name="tree", run="^TestTree$", quick=800, thorough=2400, shards=8, quick_shards=8, timeout_quick=400),
             dict(name="many", run="^TestManyEntries$", quick=10, thorough=80, shards=4, timeout_quick=400),
             dict(name="escape", run="^TestEscape$", quick=80, thorough=800, shards=4),
         ],
@@ -245,6 +245,7 @@ CHECKS = {
             dict(name="pubsub", run="^TestPubsub$", quick=150, thorough=1500, shards=2),
             dict(name="pubsubburst", run="^TestPubsubBurst$", quick=30, thorough=300, shards=4),
             dict(name="bufferpool", run="^TestBufferPool$", quick=100, thorough=1000, shards=2),
+            dict(name="neighbours", run="^TestNeighbours$", quick=60, thorough=600, shards=2),
         ],
     ),
     "C15": dict(
